@@ -182,6 +182,64 @@ Theorem reset_compacting_refuted : exists slots, nth_error slots 1 = Some (Some 
 Proof. exists [None; Some 7]. vm_compute. split; reflexivity. Qed.
 Print Assumptions reset_compacting_refuted.
 
+(** hfile.c Hseek: the origin arithmetic [offset += posn] / [offset += data_len] in int32.  The sum of two
+    non-negative int32 values that does not fit wraps to a negative value, which the range test refuses: the code has no
+    dedicated guard and needs none *)
+Theorem no_wrap_Hseek : forall appendable origin offset posn data_len,
+  0 <= posn <= INT32_MAX -> 0 <= data_len <= INT32_MAX -> (appendable = false -> posn <= data_len) ->
+  is_int32 offset -> (origin = DF_START \/ origin = DF_CURRENT \/ origin = DF_END) ->
+  m_hseek appendable origin offset posn data_len = s_hseek appendable origin offset posn data_len.
+Proof. exact hseek_lemma. Qed.
+Print Assumptions no_wrap_Hseek.
+
+(** hchunks.c HMCPchunkwrite: the ref of a new chunk (DFE_NOREF when DFTAG_CHUNK has none left) *)
+Theorem no_wrap_chunk_ref : forall next, -1 <= next <= 2147483647 -> next <> 0 -> m_chunk_ref next = s_tagnewref next.
+Proof. exact chunk_ref_lemma. Qed.
+Print Assumptions no_wrap_chunk_ref.
+
+(** vio.c vpackvs: the int16 length fields hold the true lengths and the packed header fits the buffer VSdetach
+    provides, for every Vdata within VSFIELDMAX / FIELDNAMELENMAX / VSNAMELENMAX *)
+Theorem vpackvs_fits_buffer : forall fnames namelen classlen,
+  Forall (fun l => 0 <= l <= FIELDNAMELENMAX) fnames -> Z.of_nat (length fnames) <= VSFIELDMAX ->
+  0 <= namelen <= VSNAMELENMAX -> 0 <= classlen <= VSNAMELENMAX ->
+  m_vpackvs_size fnames namelen classlen = s_vpackvs_size fnames namelen classlen /\
+  0 < m_vpackvs_size fnames namelen classlen <= vh_buffer_lower_bound.
+Proof. exact vpackvs_lemma. Qed.
+Print Assumptions vpackvs_fits_buffer.
+
+(** "the library remains usable after a refused request", at the level of the specification: a refused request
+    returns the abstract state it was given -- for every operation of the harness language (H, Vgroup, Vdata, SD
+    level).  [plain_request] excludes only the reservations (next theorem), the linked-block write (refused after
+    HLcreate has made the element) and batches of several Vgroup insertions (each single insertion is covered). *)
+Theorem refused_request_leaves_state_unchanged : forall st o,
+  plain_request st o = true -> is_refusal (snd (step st o)) -> fst (step st o) = st.
+Proof. exact step_refusal. Qed.
+Print Assumptions refused_request_leaves_state_unchanged.
+
+(** a refused reservation (Hstartwrite / Hputelement that finds no room below 2^31-1) leaves at most the length-less
+    descriptor of the requested element and the descriptor block holding it: every other element is found as before,
+    the bulk elements are untouched, the end of file moves by at most one descriptor block and stays tracked *)
+Theorem refused_reservation_leaves_only_placeholder : forall h tag ref len w h' vs, 0 <= h_ndds h ->
+  new_element h tag ref len w = (h', RFail vs) ->
+  h_bulk h' = h_bulk h /\
+  (forall t r, (t =? tag) && (r =? ref) = false -> find_elem h' t r = find_elem h t r) /\
+  (match find_elem h' tag ref with Some e => e_len e < 0 | None => find_elem h tag ref = None end) /\
+  (h_known h = true -> h_known h' = true /\ h_eof h <= h_eof h' <= h_eof h + ddblock_size (h_ndds h)).
+Proof. exact refused_reservation_lemma. Qed.
+Print Assumptions refused_reservation_leaves_only_placeholder.
+
+(** the same at the level of the site models: whatever a site refuses, it hands back the state it received *)
+Theorem refused_site_requests_change_nothing :
+  (forall eof size, fst (m_getdiskblock eof size) = None -> snd (m_getdiskblock eof size) = eof) /\
+  (forall n, fst (m_vinsertpair n) = None -> snd (m_vinsertpair n) = n) /\
+  (forall fs, fst (m_vssetfields fs) = false -> snd (m_vssetfields fs) = (0, 0)) /\
+  (forall req sys cur slots, 0 <= req ->
+     truth (resetmax_keeps req cur) = true \/
+     truth (resetmax_too_small (if truth (resetmax_caps req sys) then sys else req) (highest slots 0 (-1))) = true ->
+     m_reset_maxopen req sys cur slots = (Z.of_nat (length slots), slots)).
+Proof. exact sites_refusal_lemma. Qed.
+Print Assumptions refused_site_requests_change_nothing.
+
 (** Non-vacuity: the hypotheses are met by concrete, non-trivial arguments on both sides of each limit *)
 Example getdiskblock_at_limit : m_getdiskblock 1073742118 1073741529 = (Some 1073742118, 2147483647)
                               /\ m_getdiskblock 1073742118 1073741530 = (None, 1073742118).
@@ -217,3 +275,13 @@ Proof. vm_compute. repeat split; reflexivity. Qed.
 Example reset_keeps_example : m_reset_maxopen 10 37 1 [None; Some 1; None] = (10, [None; Some 1; None; None; None; None; None; None; None; None])
                             /\ m_reset_maxopen 1 37 0 [None; Some 1; None] = (3, [None; Some 1; None]).
 Proof. vm_compute. split; reflexivity. Qed.
+Example hseek_at_limit : m_hseek true DF_CURRENT 200 2147483547 10 = None /\ m_hseek true DF_CURRENT 100 2147483547 10 = Some 2147483647
+                       /\ m_hseek false DF_END 2147483647 3 10 = None /\ m_hseek false DF_END (-4) 3 10 = Some 6.
+Proof. vm_compute. repeat split; reflexivity. Qed.
+Example vpackvs_example : m_vpackvs_size [5; 128] 64 0 = 27 + 16 + 7 + 130 + 64.
+Proof. vm_compute. reflexivity. Qed.
+Example refusal_examples :
+  let st := fst (step (fst (step (fst (step init (OHopen 16))) (OVgNew 0))) (OVgAdd 0 1000 0 65535)) in
+  plain_request st (OVgAdd 0 1000 0 1) = true /\ snd (step st (OVgAdd 0 1000 0 1)) = RFail [Some 0]
+  /\ plain_request st (OVgSetName 0 65536) = true /\ snd (step st (OVgSetName 0 65536)) = RFail [].
+Proof. vm_compute. repeat split; reflexivity. Qed.
